@@ -11,7 +11,7 @@ PROGS = {
     'pfor_trange': [(0, 4), (2, 4), (3, 4)],
     'preduce': [(0, 5), (1, 4), (2, 4)], 'preduce_auto': [(0, 4), (1, 3), (2, 3)],
     'pdreduce': [(0, 4), (1, 4), (2, 4)], 'pdreduce_trange': [(2, 6), (3, 4)], 'preduce_lambda': [(0, 4), (1, 4)],
-    'pforeach': [(0, 8)], 'pinvoke': [(0, 4)], 'pipeline': [(4, 7), (0, 6), (1, 6)], 'taskgroup': [(0, 3), (1, 6)],
+    'pforeach': [(0, 8)], 'pinvoke': [(0, 4)], 'pipeline': [(4, 7), (0, 6), (1, 6)], 'pipelineT': [(4, 6), (0, 5), (1, 5)], 'taskgroup': [(0, 3), (1, 6)],
     'arena_execute': [(0, 4)], 'pscan': [(0, 6), (1, 4)], 'psort': [(0, 3)], 'flow': [(0, 4), (1, 4)],
 }
 
